@@ -71,3 +71,29 @@ func (v *VerifInformerC08) OnDeleteTombstone(key string, obj *unstructured.Unstr
 // informer made on start (or of the store replay for a handler added to a running informer):
 // isInInitialList = true.
 func (v *VerifInformerC08) OnAddInitial(obj *unstructured.Unstructured) { v.ei.OnAdd(obj, true) }
+
+// FactoryState reports what DefaultFactoryStore holds under this informer's factory index: whether
+// a factory is stored there, whether that factory's context has been cancelled, whether this
+// informer's handler is registered with it, and how many handlers are registered.
+func (v *VerifInformerC08) FactoryState() (stored, cancelled, registered bool, handlers int) {
+	DefaultFactoryStore.mu.Lock()
+	defer DefaultFactoryStore.mu.Unlock()
+	f, ok := DefaultFactoryStore.data[v.ei.FactoryIndex]
+	if !ok {
+		return false, false, false, 0
+	}
+	_, registered = f.handlerRegistrations[v.ei.id]
+	return true, f.ctx.Err() != nil, registered, len(f.handlerRegistrations)
+}
+
+// SharedInformer is the client-go shared informer of the factory stored under this informer's
+// factory index (nil: no factory is stored). The harness keeps it to ask IsStopped() later.
+func (v *VerifInformerC08) SharedInformer() cache.SharedIndexInformer {
+	DefaultFactoryStore.mu.Lock()
+	defer DefaultFactoryStore.mu.Unlock()
+	f, ok := DefaultFactoryStore.data[v.ei.FactoryIndex]
+	if !ok {
+		return nil
+	}
+	return f.shared.ForResource(v.ei.GroupVersionResource).Informer()
+}
